@@ -219,3 +219,12 @@ Proof.
   assert (Hle : inject_Z (Z.of_nat (S i)) <= inject_Z (Z.of_nat (S j))) by (rewrite <- Zle_Qle; lia).
   apply Qplus_le_r. apply div_le_div; [exact Hn|]. nra.
 Qed.
+
+(* lowering the maximum lag on truncated distance data: the pairs within the new, smaller maximum lag are all still stored *)
+Theorem within_nested M1 M2 D : M2 <= M1 -> within M2 (within M1 D) = within M2 D.
+Proof.
+  intro H. unfold within. induction D as [|d r IH]; [reflexivity|]. cbn [filter].
+  destruct (Qle_bool d M1) eqn:E1; cbn [filter].
+  - rewrite IH. reflexivity.
+  - destruct (Qle_bool d M2) eqn:E2; [|exact IH]. qbool. exfalso. lra.
+Qed.
